@@ -28,6 +28,17 @@ var codePkgs = map[string]string{
 	"x/did/types":   "didtypes",
 	"x/did/keeper":  "didkeeper",
 	"x/did/internal/secp256k1util": "didsecp",
+	"x/burn/keeper": "burnkeeper",
+}
+
+// the state a package's keeper works on: the block's KV stores, or (x/burn, which only talks to x/bank) the bank model
+var worldTypeOf = map[string]string{"burnkeeper": "Go.BankWorld"}
+
+func worldType(ns string) string {
+	if t, ok := worldTypeOf[ns]; ok {
+		return t
+	}
+	return "Go.World"
 }
 
 // files that are not translated (CLI wiring, codec registration, generated code)
@@ -166,6 +177,8 @@ func (g *cgen) leanType(t types.Type) string {
 			fail("named type %s", name)
 		}
 		switch full.Path() + "." + name {
+		case "github.com/cosmos/cosmos-sdk/types.Coins":
+			return "(List (Bytes × Nat))"
 		case "github.com/cosmos/cosmos-sdk/types.AccAddress", "github.com/cometbft/cometbft/crypto/secp256k1.PubKey",
 			"github.com/cometbft/cometbft/crypto/secp256k1.PrivKey":
 			return "Bytes"
@@ -1065,6 +1078,8 @@ func (c *fctx) call(e *emitter, ind int, call *ast.CallExpr, want int) []string 
 		return []string{"(" + c.expr(e, ind, sel.X) + ").isEmpty"}
 	case "log.Printf", "log.Println":
 		return nil
+	case "github.com/cosmos/cosmos-sdk/types.Coins.Empty":
+		return []string{"(" + c.expr(e, ind, sel.X) + ").isEmpty"}
 	case "fmt.Sprintf":
 		if str, ok := c.constString(call, 0); ok {
 			return []string{leanBytesLit(str)}
@@ -1165,6 +1180,32 @@ func (c *fctx) call(e *emitter, ind int, call *ast.CallExpr, want int) []string 
 			return []string{"(Go.blockTimeUnixNano world)"}
 		}
 		fail("UnixNano of something that is not ctx.BlockTime()")
+	}
+	// logging has no effect on the state (its arguments are not evaluated here)
+	if sel != nil && (sel.Sel.Name == "Info" || sel.Sel.Name == "Error" || sel.Sel.Name == "Debug") {
+		if ic, ok := sel.X.(*ast.CallExpr); ok && strings.HasSuffix(calleeName(ic.Fun), ".Logger") {
+			return nil
+		}
+	}
+	// x/bank through the keeper's interface field
+	if sel != nil {
+		if inner, ok := sel.X.(*ast.SelectorExpr); ok && inner.Sel.Name == "bankKeeper" {
+			switch sel.Sel.Name {
+			case "SpendableCoins":
+				return []string{"(Go.bankSpendableCoins world " + arg(1) + ")"}
+			case "SendCoinsFromAccountToModule":
+				t := c.fresh("t")
+				e.add(ind, fmt.Sprintf("let %s := Go.bankSendToModule world %s %s %s", t, arg(1), arg(2), arg(3)))
+				e.add(ind, fmt.Sprintf("world := %s.1", t))
+				return []string{t + ".2"}
+			case "BurnCoins":
+				t := c.fresh("t")
+				e.add(ind, fmt.Sprintf("let %s := Go.bankBurnCoins world %s %s", t, arg(1), arg(2)))
+				e.add(ind, fmt.Sprintf("world := %s.1", t))
+				return []string{t + ".2"}
+			}
+			fail("bank keeper method %s", sel.Sel.Name)
+		}
 	}
 	// codec of the keeper
 	if sel != nil {
@@ -2087,13 +2128,14 @@ func (g *cgen) translate(cf *cfn) {
 	}
 	mon := "Go.P"
 	if cf.stateful {
-		params = append(params, "(world0 : Go.World)")
+		params = append(params, "(world0 : "+worldType(cf.ns)+")")
+		wt := worldType(cf.ns)
 		if rt == "Unit" {
-			rt = "Go.World"
+			rt = wt
 		} else if len(res) == 1 {
-			rt = "(" + rt + " × Go.World)"
+			rt = "(" + rt + " × " + wt + ")"
 		} else {
-			rt = "(" + strings.TrimSuffix(strings.TrimPrefix(rt, "("), ")") + " × Go.World)"
+			rt = "(" + strings.TrimSuffix(strings.TrimPrefix(rt, "("), ")") + " × " + wt + ")"
 		}
 	}
 	hdr := "def " + cf.lean
